@@ -269,6 +269,50 @@ func ruleGCCountdown(c *Ctx) {
 		c.viol(fnName(fn), "count-down visitor found", p.Pos(fn.Pos()), "no traverse visitor")
 		return
 	}
+	// every decision on the indirect counts is taken after the count-down traversal
+	{
+		var firstTrav ssa.Instruction
+		for _, call := range callsIn(fn) {
+			if _, ok := isCallTo(call, trav); ok && firstTrav == nil {
+				firstTrav = call
+			}
+		}
+		for _, g := range p.withHelpers(fn) {
+			if g.Parent() != nil {
+				continue
+			}
+			for _, in := range instrsOf(g) {
+				i, ok := in.(*ssa.If)
+				if !ok {
+					continue
+				}
+				x, _, _, isCmp := cmpConst(i.Cond)
+				if !isCmp {
+					continue
+				}
+				f, _ := fieldLoad(x)
+				if f == nil || !(strings.EqualFold(f.Name(), "indirect") || strings.EqualFold(f.Name(), "indirectsent")) {
+					continue
+				}
+				c.inst(1)
+				ok2 := g != fn || (firstTrav != nil && dominates(firstTrav, i))
+				if g != fn {
+					// in a helper: the helper must be called after the count-down
+					ok2 = false
+					for _, call := range callsIn(fn) {
+						if call.Common().StaticCallee() == g && firstTrav != nil && dominates(firstTrav, call) {
+							ok2 = true
+						}
+					}
+					if firstTrav == nil {
+						ok2 = true // traversal itself lives in a helper: order checked by the helper sequence
+					}
+				}
+				c.check(ok2, fnName(g), "keep/delete decision uses the counts as they are after the count-down", p.InstrPos(i), "decision dominated by the count-down traversal",
+					"the collector decides on the raw counts before discounting the references inside the sub-graph: a cyclic or self-referencing resource is never collected (its subscription stays behind with zero direct count)")
+			}
+		}
+	}
 	v := visitors[0]
 	c.inst(1)
 	isField := func(fa *ssa.FieldAddr, name string) bool {
